@@ -289,6 +289,7 @@ type Resp struct {
 	RepOutcomes  []string       `json:"repOutcomes,omitempty"`
 	CanaryOrders int            `json:"canaryOrders,omitempty"`
 	Stderr       string         `json:"stderr,omitempty"`
+	PeakRSSMB    int            `json:"peakRssMb,omitempty"` // largest resident set of the worker process so far (memory monitor)
 }
 
 // Outcome is a compact comparable summary of an exec response (used for repetition
